@@ -149,7 +149,8 @@ func (P *Prog) verifyFunc(key string, c11 bool) (res *FuncResult) {
 			sfx = fmt.Sprintf("#%d", k+1)
 		}
 		x.em.setTag(r.blk)
-		post := x.newEnv(fr, r.st, nil)
+		// locals named in an ensures clause are read at this return point
+		post := x.newEnv(fr, r.st, fn.Blocks[r.blk])
 		post.old = x.entry
 		x.bindResults(post, r.val, resultNames(fn.Signature))
 		// a ghost assigned by ghostexit must not be changed by the body otherwise
